@@ -8,7 +8,8 @@ from concurrent.futures import ThreadPoolExecutor
 
 ASSUME = ["the abstract view of a name (labels, wildcard kind per label, control characters, trailing dot) is computed by the generator from the very string put into the certificate / passed as expected name",
           "soundness uses the case-insensitive reading for e-mail local parts, completeness the verbatim one (the library follows RFC 5280: local part case-sensitive); names with a trailing dot are excluded from completeness",
-          "expected hostnames are passed with nameType HOSTNAME, e-mail addresses with SAN_EMAIL, IPv4 literals with SAN_IP_ADDRESS"]
+          "expected hostnames are passed with nameType HOSTNAME, e-mail addresses with SAN_EMAIL, IPv4 literals with SAN_IP_ADDRESS; further calls and all session scenarios use every name type and flag combination, read as documented in matrixsslApiTypes.h: ALWAYS_CHECK_SUBJECT_CN is a documented override of the common-name rule, SKIP_EXPECTED_NAME_VALIDATION a documented opt-out (no soundness claim under it), an illegal combination must authenticate nobody",
+          "session layer: 'accepted' = the client reports handshake complete; completeness is demanded only when session creation accepted the expected name"]
 
 def run(tier, seed):
     prop = "C05"
@@ -26,15 +27,28 @@ def run(tier, seed):
     csets = namegen.cert_sets(tier, seed)
     pkidir = os.path.join(runner.WORK, "pki_C05")
     namegen.materialise(csets, pkidir, os.path.join(runner.ROOT, "build/certgen"))
-    lines, meta = namegen.scripts(csets, pkidir)
+    lines, meta = namegen.scripts(csets, pkidir, seed)
     nsh = 16
     jobs = []
     for i in range(nsh):
         sp = os.path.join(wd, "n%02d.mx" % i); open(sp, "w").write("\n".join(lines[i::nsh]) + "\n")
         jobs.append((sp, os.path.join(wd, "n%02d.nd" % i)))
+    # the session layer: the same question through matrixSslNewClientSession(expectedName, validateCertsOpts)
+    seps = namegen.session_scripts(csets, pkidir, tier, seed)
+    smeta = {}
+    for i in range(nsh):
+        mine = seps[i::nsh]
+        if not mine:
+            continue
+        sp = os.path.join(wd, "h%02d.mx" % i); open(sp, "w").write("\n".join(l for ls, _ in mine for l in ls) + "\n")
+        jobs.append((sp, os.path.join(wd, "h%02d.nd" % i)))
+        smeta[sp] = [m for _, ms in mine for m in ms]
+        for k, m in enumerate(smeta[sp]):
+            m["tag"] = "H%02d_%d" % (i, k)
+            meta[m["tag"]] = m
     with ThreadPoolExecutor(max_workers=16) as ex:
         res = list(ex.map(lambda j: runner.run_driver(bdir, j[0], j[1], 1800), jobs))
-    distinct = set(); nmatch = 0
+    distinct = set(); nmatch = 0; nsess = 0; nsessok = 0
     good = []
     for r in res:
         if r["rc"] != 0:
@@ -43,15 +57,28 @@ def run(tier, seed):
             violations.append(("sanitizer", "driver terminated abnormally rc=%s: %s" % (r["rc"], r["stderr"][-300:].replace("\n", " ")), rp))
             continue
         out = []
+        FLD = ("v", "sans", "cn", "nt", "cnalways", "ci", "gnv", "skip", "layer")
+        sm = smeta.get(r["script"]); k = 0; newok = {}
         for l in open(r["trace"]):
             d = json.loads(l)
             if d.get("ev") == "validate":
                 m = meta[d["tag"]]
-                d.update(dict(x=m["x"], sans=m["sans"], cn=m["cn"]))
+                d.update({f: m[f] for f in FLD})
                 ok = d["prc"] == 0 and d["rcn"] >= 0 and all(x == 1 for x in d["st"])
                 nmatch += ok
-                distinct.add((m["xs"], tuple(tuple(s) for s in m["sansrc"]), m["cnsrc"], ok))
+                distinct.add((m["xs"], tuple(tuple(s) for s in m["sansrc"]), m["cnsrc"], m["nt"], m["mflags"], m["vflags"], ok))
+            elif sm is not None and d.get("ev") == "new" and d.get("role") == "C":
+                newok[d["ep"]] = 0 if d.get("rcn", 0) < 0 else 1
+            elif sm is not None and d.get("ev") == "state" and d.get("role", "C") == "C":
+                # one line per client session: did the handshake complete?
+                m = sm[k]; k += 1
+                d = dict(i=d["i"], ev="validate", tag=m["tag"], ep=d["ep"], hc=int(d.get("hc", 0) == 1), newok=newok.get(d["ep"], 0), ver=m["ver"], cb=m["cb"],
+                         **{f: m[f] for f in FLD})
+                nsess += 1; nsessok += d["hc"]
+                distinct.add((m["xs"], tuple(tuple(s) for s in m["sansrc"]), m["cnsrc"], m["nt"], m["mflags"], m["vflags"], m["ver"], m["cb"], d["hc"]))
             out.append(json.dumps(d))
+        if sm is not None and k != len(sm):
+            raise SystemExit("INFRA: %s: %d client state lines for %d session scenarios" % (r["trace"], k, len(sm)))
         open(r["trace"], "w").write("\n".join(out) + "\n")
         good.append(r)
     with ThreadPoolExecutor(max_workers=16) as ex:
@@ -65,22 +92,38 @@ def run(tier, seed):
         nvalid += sum(1 for x in tl if '"ev":"validate"' in x.replace(' ', '')) - len(v["rejects"])
         for ln in v["rejects"]:
             d = json.loads(tl[ln - 1]); m = meta[d["tag"]]
+            if m["layer"] == "session":
+                obs = "match" if d["hc"] == 1 else "nomatch"
+            else:
+                obs = "match" if (d["prc"] == 0 and d["rcn"] >= 0 and all(x == 1 for x in d["st"])) else "nomatch"
             sig = {"expected": m["xs"], "sans": ";".join("%s:%s" % (k, bytes.fromhex(h).decode("latin1")) for k, h in m["sansrc"]), "cn": str(m["cnsrc"]),
-                   "obs": "match" if (d["prc"] == 0 and d["rcn"] >= 0) else "nomatch"}
+                   "obs": obs}
+            sig["opts"] = "%s/%d/%d" % (m["nt"], m["mflags"], m["vflags"]); sig["layer"] = m["layer"]
             k = runner.match_known(sig, known)
             if k:
                 known_hit[k["id"]] = k; continue
-            sl = [l for l in open(r["script"]).read().splitlines() if l.endswith("tag=" + d["tag"])]
+            if m["layer"] == "session":
+                # the whole episode of that certificate, cut after the session in question
+                src = open(r["script"]).read().splitlines()
+                at = [n for n, l in enumerate(src) if l.startswith("new %s client" % d["ep"])]
+                ntha = [n for n in at if sum(1 for l in src[:n] if l.startswith("state ")) == int(d["tag"].split("_")[1])]
+                n0 = ntha[0] if ntha else 0
+                b = max([n for n in range(n0) if src[n].startswith("keys ks")] or [0])
+                sl = src[b:b + 2] + src[n0 - 1:n0 + 5]
+            else:
+                sl = [l for l in open(r["script"]).read().splitlines() if l.endswith("tag=" + d["tag"])]
             rp = runner.save_replay(prop, d["tag"], sl)
-            violations.append(("trace", "library says %s for expected %r against SAN [%s] CN %s" % (sig["obs"], sig["expected"], sig["sans"], sig["cn"]), rp))
+            violations.append(("trace", "%s: library says %s for expected %r (name type %s, mFlags %d, flags %d%s) against SAN [%s] CN %s" % (
+                m["layer"] + (" " + m.get("ver", "") + " " + m.get("cb", "") if m["layer"] == "session" else ""), sig["obs"], sig["expected"], m["nt"], m["mflags"], m["vflags"], "",
+                sig["sans"], sig["cn"]), rp))
     for k in known_hit.values():
         print("KNOWN-FINDING: property=%s %s" % (prop, k["what"]))
     for kind, text, rp in violations[:40]:
         print("VIOLATION property=%s replay=%s" % (prop, rp)); print("  (%s) %s" % (kind, text[:500].encode("ascii", "backslashreplace").decode()))
     cov = {"states": mc.get("states", 0), "transitions": mc.get("transitions", 0), "traces_validated_against_impl": nvalid,
            "samples": [{"expected": m["xs"], "sans": m["sansrc"], "cn": m["cnsrc"]} for m in list(meta.values())[:3]],
-           "evaluations": len(lines), "distinct_nontrivial": len(distinct),
-           "rule": "pair = (expected name, certificate name set); name sets = SAN lists of 0..3 entries from a pool of %d (" % len(namegen.SAN_POOL) + "dNSName incl. wildcards/partial/multi/non-leftmost wildcards, case variants, trailing dot, control character, one trailing NUL, two trailing NULs, embedded NUL; rfc822Name; iPAddress; URI) in several orders x 5 CN choices; distinct_nontrivial = distinct (expected, SAN list, CN, answer)",
+           "evaluations": len(lines) + nsess, "distinct_nontrivial": len(distinct), "session_handshakes": nsess, "session_handshakes_completed": nsessok,
+           "rule": "pair = (expected name, certificate name set); name sets = SAN lists of 0..3 entries from a pool of %d (" % len(namegen.SAN_POOL) + "dNSName incl. wildcards/partial/multi/non-leftmost wildcards, case variants, trailing dot, control character, one trailing NUL, two trailing NULs, embedded NUL; rfc822Name; iPAddress; URI) in several orders x 5 CN choices; each pair with the name type of its kind, plus random (nameType, mFlags, flags) settings; session layer: client sessions created with expectedName and validateCertsOpts (TLS 1.2 / TLS 1.3, with and without a pass-through certificate callback) against a server presenting the generated leaf; distinct_nontrivial = distinct (expected, SAN list, CN, options, answer)",
            "certificates_generated": len(csets), "matches_reported_by_library": nmatch, "known_findings_reported": sorted(known_hit), "exhaustive": False}
     runner.write_evidence(prop, tier, seed, "model_checking", cov, time.time() - t0, len(violations), ASSUME)
     return 1 if violations else 0
